@@ -45,6 +45,8 @@
 (*   np,nw,nb  number of Prefetch / Wait / BackgroundFetch callers         *)
 (*   f0    registry chunks fetched while the layer was resolved (TOC)      *)
 (*   rd    files that Read may read in this scenario                       *)
+(*   ro    registry goes off: 0 never, 1 only after background fetch has   *)
+(*         ended, 2 at any time (rd and ro only bound the state graphs)    *)
 (* Sets inside sc are sequences (they come from JSON).                     *)
 (*                                                                         *)
 (* Deliberate deviations from the code (also listed in the evidence):      *)
@@ -336,6 +338,7 @@ Read(f) ==
 
 RegistryOff ==
     /\ AllowReg /\ reg = "on" /\ ~Held
+    /\ sc.ro = 2 \/ (sc.ro = 1 /\ bg = "end")
     /\ reg' = "off"
     /\ UNCHANGED <<sc, pc, runner, pf, pfres, psize, pinfo, waiter, wc, bc, brunner, bg, bgres, prio, fetched, lst>>
     /\ last' = [act |-> "RegistryOff", req |-> {}]
